@@ -81,9 +81,9 @@ Fixpoint nf (fuel : nat) (q : nat) (s : sym) {struct fuel} : tree :=
         match select ts s with
         | None => Leaf (source_return q s)
         | Some t =>
-            (* end() in an accepting state takes only a transition that lists End itself: the parse is complete, the
-               transition that rejects further bytes does not apply to the end of input *)
-            if is_end s && accepting d q && negb (has (t_on t) sym_end) then Leaf (source_return q s)
+            (* end() in an accepting state takes only a transition that lists End itself and is not an error transition: the
+               parse is complete, a transition that rejects further bytes or the end of input does not make it fail *)
+            if is_end s && accepting d q && (negb (has (t_on t) sym_end) || t_err t) then Leaf (source_return q s)
             else body (fun q' => nf f q' s) q s t
         end
     | Some (SCond brs) => conds (fun q' => nf f q' s) q s brs
